@@ -90,6 +90,15 @@ func history(r drv.Rand, idx int) *h.World {
 			cid, user := "", w.UAUser
 			if r.Chance(3, 5) {
 				hint = w.Present("idtok", "idtok", "idtok", "jwt-at")
+				if ats := w.PoolOf("opaque-at", "jwt-at", "rt"); len(ats) > 0 && r.Chance(1, 4) {
+					// a FORGED hint naming the user and client of a live token: expired x (unknown kid,
+					// wrong key under a published kid), unexpired wrong kid, the retired key (good for
+					// hints only where WithIDTokenHintKeySet says so)
+					v := drv.Pick(r, []string{"expired+wrong-kid", "expired+wrong-kid", "expired+wrong-key", "wrong-kid", "wrong-key", "extra-key", "extra-key-expired"})
+					t := drv.Pick(r, ats)
+					hint = w.CraftJWT(v, "", t.Sub, t.Client, true)
+					hint.Sub, hint.Client = t.Sub, t.Client
+				}
 				w.Tags["logout-hint="+hint.Kind] = true
 				if hint.Sub != "" {
 					user = hint.Sub
